@@ -58,6 +58,10 @@ def sid_to_dict(sid: str, _type: Optional[str] = None) -> Tuple[str, dict] | Tup
     if not data:
         return None, None
 
+    # The data must format back to the given string (the template's regular expression tolerates a trailing newline).
+    if r.get_format_for(template).format(**data) != sid:
+        return None, None
+
     return template, data
 
 
